@@ -2493,13 +2493,7 @@ impl Server {
         
         // Extract key and value
         let key = match &parts[1] {
-            RespFrame::BulkString(Some(bytes)) => {
-                // Redis compliance: Empty string keys are not allowed
-                if bytes.is_empty() {
-                    return Ok(RespFrame::error("ERR invalid key: empty string keys are not allowed"));
-                }
-                bytes.as_ref().clone()
-            }
+            RespFrame::BulkString(Some(bytes)) => bytes.as_ref().clone(),
             _ => return Ok(RespFrame::error("ERR invalid key format")),
         };
         
@@ -2615,13 +2609,7 @@ impl Server {
         }
         
         let key = match &parts[1] {
-            RespFrame::BulkString(Some(bytes)) => {
-                // Redis compliance: Empty string keys are not allowed
-                if bytes.is_empty() {
-                    return Ok(RespFrame::error("ERR invalid key: empty string keys are not allowed"));
-                }
-                bytes.as_ref()
-            }
+            RespFrame::BulkString(Some(bytes)) => bytes.as_ref(),
             _ => return Ok(RespFrame::error("ERR invalid key format")),
         };
         
@@ -2649,13 +2637,7 @@ impl Server {
         }
         
         let key = match &parts[1] {
-            RespFrame::BulkString(Some(bytes)) => {
-                // Redis compliance: Empty string keys are not allowed
-                if bytes.is_empty() {
-                    return Ok(RespFrame::error("ERR invalid key: empty string keys are not allowed"));
-                }
-                bytes.as_ref().clone()
-            }
+            RespFrame::BulkString(Some(bytes)) => bytes.as_ref().clone(),
             _ => return Ok(RespFrame::error("ERR invalid key format")),
         };
         
@@ -2689,13 +2671,7 @@ impl Server {
         }
         
         let key = match &parts[1] {
-            RespFrame::BulkString(Some(bytes)) => {
-                // Redis compliance: Empty string keys are not allowed
-                if bytes.is_empty() {
-                    return Ok(RespFrame::error("ERR invalid key: empty string keys are not allowed"));
-                }
-                bytes.as_ref().clone()
-            }
+            RespFrame::BulkString(Some(bytes)) => bytes.as_ref().clone(),
             _ => return Ok(RespFrame::error("ERR invalid key format")),
         };
         
